@@ -48,7 +48,9 @@ def main(tier, seed):
     metrics = list(T.ALL)
     if tier == "quick":
         rng.shuffle(metrics)
-        metrics = metrics[:7] + ["log_squared_euclidean", "kullback_leibler", "hamming"]
+        # every non-symmetric identifier is always included: row/column mix-ups are invisible under symmetric metrics
+        fixed = ["log_squared_euclidean", "hamming", "kullback_leibler", "k_divergence", "neyman", "pearson", "statistic"]
+        metrics = [m_ for m_ in metrics if m_ not in fixed][:5] + fixed
     nviol = 0
     stats = dict(runs=0, by_model={}, formats={"txt": 0, "csv": 0}, skipped=0, matrix_entries=0)
     rounds = 1 if tier == "quick" else 20
